@@ -159,6 +159,7 @@ def run_shard(job):
     fn = prop.HARNESSES[hname]
     t0 = time.time()
     eng = engine.Engine(max_paths=opts['max_paths'], max_seconds=opts['max_seconds'])
+    eng.second_every = opts.get('second_every', 0)
     state = {'trace': None, 'xre': 0, 'xre_bad': [], 'samples': []}
     every = opts.get('xreplay_every', 0)
     offset = opts.get('seed', 0)
@@ -236,7 +237,7 @@ def run_shard(job):
         'solver_s': eng.solver_s, 'obligations': eng.obligations, 'discharged': eng.discharged,
         'violations': viols, 'inconclusive': eng.inconclusive, 'error': eng.error, 'counters': eng.counters,
         'monitors': eng.monitor_stats, 'samples': state['samples'], 'xreplays': state['xre'], 'xreplay_bad': state['xre_bad'][:3],
-        'functions': sorted(_funcs), 'wall': time.time() - t0, 'nvars': eng.nvars, 'ties': state.get('ties', 0),
+        'functions': sorted(_funcs), 'wall': time.time() - t0, 'nvars': eng.nvars, 'ties': state.get('ties', 0), 'second': eng.second,
     }
 
 
@@ -282,7 +283,8 @@ def main(argv=None):
     for (hname, params) in shards:
         opts = {'max_paths': budget.get('max_paths', 10 ** 7), 'max_seconds': budget['seconds'],
                 'xreplay_every': budget.get('xreplay_every', 50), 'seed': seed,
-                'path_timeout': budget.get('path_timeout', 300)}
+                'path_timeout': budget.get('path_timeout', 300),
+                'second_every': int(os.environ.get('VERIF_SECOND_SOLVER', budget.get('second_every', 20 if tier == 'thorough' else 50)))}
         jobs.append((pid, hname, params, opts))
     results = []
     broken = None
@@ -333,6 +335,15 @@ def report(pid, tier, seed, prop, results, broken, wall, njobs, args):
     if len(results) != njobs and not broken:
         inconclusive.append(('pool', 'missing shard results'))
     xbad = [b for r in results for b in r['xreplay_bad']]
+    second = {'checked': 0, 'agree': 0, 'disagree': 0, 'undecided': 0, 'solvers': []}
+    for r in results:
+        for k in ('checked', 'agree', 'disagree', 'undecided'):
+            second[k] += r.get('second', {}).get(k, 0)
+        for sname in r.get('second', {}).get('solvers', []):
+            if sname not in second['solvers']:
+                second['solvers'].append(sname)
+        for fpath in r.get('second', {}).get('files', []):
+            xbad.append({'why': 'a second solver says sat for an obligation z3 discharged', 'smt2': fpath})
 
     # violations
     seen = {}
@@ -416,6 +427,7 @@ def report(pid, tier, seed, prop, results, broken, wall, njobs, args):
             'stubs': meta.get('stubs', []),
             'outside_claim': meta.get('outside', []),
             'known_findings_reproduced': [k['what'] for k, _ in listed],
+            'second_solver': second,
             'cross_replay_paths_skipped_as_exact_ties': sum(r.get('ties', 0) for r in results),
             'status': {0: 'holds within bounds', 1: 'violation', 2: 'inconclusive', 3: 'harness error'}[status],
         },
